@@ -10,9 +10,11 @@
 (* SpecSim (tlc -simulate): the initial state fixes a target shape            *)
 (*   (ni integer digits, nf fractional digits, MinSig <= ni + nf <= MaxSig,   *)
 (*   nf in 0..MaxFrac) and a leading digit; every step appends one random     *)
-(*   digit; the complete input (a deadlocked state) is checked and printed.   *)
-(*   One behaviour = one long pseudo-random vector; every fractional length   *)
-(*   is equally likely.                                                       *)
+(*   digit; a final Done step marks the complete input, which is checked and  *)
+(*   printed.  One behaviour = one long pseudo-random vector; every           *)
+(*   fractional length is equally likely.  (The Done step exists because the  *)
+(*   simulator evaluates invariants on ALL successors of a state before it    *)
+(*   picks one: without it ten sibling inputs would be printed per behaviour.)*)
 (* The expected strings of the vectors come from Denom.tla only.              *)
 EXTENDS Denom, Json
 
@@ -25,12 +27,12 @@ CONSTANTS Digits,      \* digit alphabet, a subset of 0..9
 ASSUME Digits \subseteq Digit /\ MaxFrac \in 0..Places /\ MaxInt >= 1 /\ MinSig >= 1 /\ MaxSig >= MinSig
 
 VARIABLES x,           \* the input decimal [int, frac]
-          tgt          \* <<ni, nf>> target shape (SpecSim), <<0, 0>> in SpecEx
+          tgt          \* <<ni, nf, done>> target shape and completion flag (SpecSim), <<0, 0, 0>> in SpecEx
 vars == <<x, tgt>>
 
 ------------------------------------------------------------------------------
 InitEx == /\ \E d \in Digits : x = Dec(<<d>>, <<>>)
-          /\ tgt = <<0, 0>>
+          /\ tgt = <<0, 0, 0>>
 NextEx == /\ \E d \in Digits :
                \/ /\ x.frac = <<>> /\ Len(x.int) < MaxInt
                   /\ x' = Dec(Append(x.int, d), <<>>)
@@ -42,16 +44,20 @@ SpecEx == InitEx /\ [][NextEx]_vars
 InitSim == \E nf \in 0..MaxFrac :
            \E ni \in 1..(MaxSig - nf) :
              /\ ni + nf >= MinSig
-             /\ tgt = <<ni, nf>>
+             /\ tgt = <<ni, nf, 0>>
              /\ \E d \in (IF ni > 1 THEN Digits \ {0} ELSE Digits) : x = Dec(<<d>>, <<>>)
-NextSim == /\ \E d \in Digits :
-               IF Len(x.int) < tgt[1] THEN x' = Dec(Append(x.int, d), <<>>)
-               ELSE /\ Len(x.frac) < tgt[2]
-                    /\ x' = Dec(x.int, Append(x.frac, d))
-           /\ UNCHANGED tgt
+Shaped == Len(x.int) = tgt[1] /\ Len(x.frac) = tgt[2]
+NextSim == \/ /\ ~Shaped
+              /\ \E d \in Digits :
+                   IF Len(x.int) < tgt[1] THEN x' = Dec(Append(x.int, d), <<>>)
+                   ELSE x' = Dec(x.int, Append(x.frac, d))
+              /\ UNCHANGED tgt
+           \/ /\ Shaped /\ tgt[3] = 0
+              /\ tgt' = <<tgt[1], tgt[2], 1>>
+              /\ UNCHANGED x
 SpecSim == InitSim /\ [][NextSim]_vars
 
-Complete == Len(x.int) = tgt[1] /\ Len(x.frac) = tgt[2]
+Complete == Shaped /\ tgt[3] = 1
 
 ------------------------------------------------------------------------------
 (* invariants *)
